@@ -143,4 +143,269 @@ theorem importRoot_handles (e : Env) (s : St) (root : HAns) : (importRoot e s ro
         rw [handles_of_tables (tables_settlePath _ _), insertInode_handles, handles_of_tables h2]
         exact handles_of_tables h1
 
+theorem entryRes_hnds (sp : Spec) (op : Op) (x : St × Except Errno Ino)
+    (hop : (∃ p pst a, op = .lookup p pst a) ∨ (∃ p pst hr a, op = .mkdir p pst hr a)
+      ∨ (∃ p pst hr a, op = .mknod p pst hr a) ∨ (∃ i ist p pst hr a, op = .link i ist p pst hr a)) :
+    (sp.step op (entryRes x).2).hnds = sp.hnds := by
+  rw [spec_entryRes sp op x hop, afterLookup_hnds]
+
+theorem opMknod_hnds (e : Env) (s : St) (sp : Spec) (p : Ino) (pst : Bool) (hr : Errno) (a : HAns)
+    (op : Op) (hop : op = .mkdir p pst hr a ∨ op = .mknod p pst hr a) (h : s.handles = sp.hnds) :
+    (opMknod e s p pst hr a).1.handles = (sp.step op (opMknod e s p pst hr a).2).hnds := by
+  have herr : ∀ er, (sp.step op (.err er)).hnds = sp.hnds := by
+    intro er; rcases hop with x | x <;> subst x <;> rfl
+  unfold opMknod
+  split
+  · rw [herr]; exact h
+  · rename_i dir _
+    have h1 := tables_getFile e s dir pst
+    split
+    · rename_i heq; rw [heq] at h1; rw [herr, handles_of_tables h1]; exact h
+    · rename_i s1 heq; rw [heq] at h1
+      split
+      · rw [herr, handles_of_tables (tables_closeTemp _ _), handles_of_tables h1]; exact h
+      · split
+        rename_i s2 r heq2
+        have hfst := entryRes_fst (doLookup e s1 p pst a)
+        have hsp := entryRes_hnds sp op (doLookup e s1 p pst a)
+          (by rcases hop with x | x
+              · exact Or.inr (Or.inl ⟨p, pst, hr, a, x⟩)
+              · exact Or.inr (Or.inr (Or.inl ⟨p, pst, hr, a, x⟩)))
+        rw [heq2] at hfst hsp
+        simp only at hfst hsp
+        rw [hsp, handles_of_tables (tables_closeTemp _ _), hfst, doLookup_handles, handles_of_tables h1]
+        exact h
+
+theorem opLink_hnds (e : Env) (s : St) (sp : Spec) (ino : Ino) (ist : Bool) (p : Ino) (pst : Bool)
+    (hr : Errno) (a : HAns) (h : s.handles = sp.hnds) :
+    (opLink e s ino ist p pst hr a).1.handles
+      = (sp.step (.link ino ist p pst hr a) (opLink e s ino ist p pst hr a).2).hnds := by
+  have herr : ∀ er, (sp.step (.link ino ist p pst hr a) (.err er)).hnds = sp.hnds := fun _ => rfl
+  unfold opLink
+  split
+  · rw [herr]; exact h
+  · rename_i d _
+    split
+    · rw [herr]; exact h
+    · rename_i dir _
+      have h1 := tables_getFile e s d ist
+      split
+      · rename_i heq; rw [heq] at h1; rw [herr, handles_of_tables h1]; exact h
+      · rename_i s1 heq; rw [heq] at h1
+        have h2 := tables_getFile e s1 dir pst
+        split
+        · rename_i heq2; rw [heq2] at h2
+          rw [herr, handles_of_tables (tables_closeTemp _ _), handles_of_tables h2, handles_of_tables h1]
+          exact h
+        · rename_i s2 heq2; rw [heq2] at h2
+          split
+          · rw [herr, handles_of_tables (tables_closeTemp _ _), handles_of_tables (tables_closeTemp _ _),
+              handles_of_tables h2, handles_of_tables h1]; exact h
+          · split
+            rename_i s3 r heq3
+            have hfst := entryRes_fst (doLookup e s2 p pst a)
+            have hsp := entryRes_hnds sp (.link ino ist p pst hr a) (doLookup e s2 p pst a)
+              (Or.inr (Or.inr (Or.inr ⟨ino, ist, p, pst, hr, a, rfl⟩)))
+            rw [heq3] at hfst hsp
+            simp only at hfst hsp
+            rw [hsp, handles_of_tables (tables_closeTemp _ _), handles_of_tables (tables_closeTemp _ _),
+              hfst, doLookup_handles, handles_of_tables h2, handles_of_tables h1]
+            exact h
+
+theorem finishCreate_hnds (e : Env) (s : St) (sp : Spec) (ino : Ino) (op : Op)
+    (hop : ∃ p pst x cr a ohr, op = .create p pst x cr a ohr) (h : s.handles = sp.hnds) :
+    (finishCreate e s ino).1.handles = (sp.step op (finishCreate e s ino).2).hnds := by
+  obtain ⟨p, pst, x, cr, a, ohr, e1⟩ := hop
+  subst e1
+  unfold finishCreate
+  split
+  · show mput s.handles s.nextHandle ino = mput sp.hnds s.nextHandle ino
+    rw [h]
+  · show s.handles = (sp.deliver ino).hnds
+    rw [deliver_hnds]; exact h
+
+theorem createTail_hnds (e : Env) (s : St) (sp : Spec) (p : Ino) (pst : Bool) (haveNew : Bool) (a : HAns)
+    (ohr : Errno) (op : Op) (hop : ∃ p pst x cr a ohr, op = .create p pst x cr a ohr)
+    (h : s.handles = sp.hnds) :
+    (createTail e s p pst haveNew a ohr).1.handles
+      = (sp.step op (createTail e s p pst haveNew a ohr).2).hnds := by
+  have herr : ∀ er, (sp.step op (.err er)).hnds = sp.hnds := by
+    intro er; obtain ⟨p, pst, x, cr, a, ohr, e1⟩ := hop; subst e1; rfl
+  unfold createTail
+  have hl := doLookup_handles e s p pst a
+  split
+  · rename_i s1 er heq; rw [heq] at hl
+    rw [herr, handles_of_tables (tables_closeTemp _ _)]; exact hl.trans h
+  · rename_i s1 ino heq; rw [heq] at hl
+    have hs1 : s1.handles = sp.hnds := hl.trans h
+    split
+    · exact finishCreate_hnds e s1 sp ino op hop hs1
+    · split
+      · rw [herr, forgetOne_handles]; exact hs1
+      · have h2 := tables_openInode e s1 ino ohr
+        split
+        · rename_i s2 er heq2; rw [heq2] at h2
+          rw [herr, forgetOne_handles, handles_of_tables h2]; exact hs1
+        · rename_i s2 heq2; rw [heq2] at h2
+          exact finishCreate_hnds e s2 sp ino op hop (by rw [handles_of_tables h2]; exact hs1)
+
+theorem opCreate_hnds (e : Env) (s : St) (sp : Spec) (p : Ino) (pst : Bool) (excl : Bool) (cr : CreateAns)
+    (a : HAns) (ohr : Errno) (h : s.handles = sp.hnds) :
+    (opCreate e s p pst excl cr a ohr).1.handles
+      = (sp.step (.create p pst excl cr a ohr) (opCreate e s p pst excl cr a ohr).2).hnds := by
+  have herr : ∀ er, (sp.step (.create p pst excl cr a ohr) (.err er)).hnds = sp.hnds := fun _ => rfl
+  have hop : ∃ p' pst' x cr' a' ohr', Op.create p pst excl cr a ohr = .create p' pst' x cr' a' ohr' :=
+    ⟨p, pst, excl, cr, a, ohr, rfl⟩
+  unfold opCreate
+  split
+  · rw [herr]; exact h
+  · rename_i dir _
+    have h1 := tables_getFile e s dir pst
+    split
+    · rename_i heq; rw [heq] at h1; rw [herr, handles_of_tables h1]; exact h
+    · rename_i s1 heq; rw [heq] at h1
+      have h2 := tables_allocFd e s1
+      split
+      · rename_i heq2; rw [heq2] at h2
+        rw [herr, handles_of_tables (tables_closeTemp _ _), handles_of_tables h2, handles_of_tables h1]
+        exact h
+      · rename_i s2 heq2; rw [heq2] at h2
+        have hs2 : s2.handles = sp.hnds := by rw [handles_of_tables h2, handles_of_tables h1]; exact h
+        split
+        · rw [herr, handles_of_tables (tables_closeTemp _ _), handles_of_tables (tables_freeFd _)]
+          exact hs2
+        · simp only
+          split
+          · rw [herr, handles_of_tables (tables_closeTemp _ _), handles_of_tables (tables_freeFd _)]
+            exact hs2
+          · rw [handles_of_tables (tables_closeTemp _ _)]
+            exact createTail_hnds e (freeFd s2) sp p pst false a ohr _ hop hs2
+        · rw [handles_of_tables (tables_closeTemp _ _)]
+          exact createTail_hnds e s2 sp p pst true a ohr _ hop hs2
+
+theorem opReaddirplus_hnds (e : Env) (s : St) (sp : Spec) (ino : Ino) (hd : Hnd) (dhr : Errno)
+    (lst : Except Errno (List DEnt)) (fit : Nat) (tl : Tail) (h : s.handles = sp.hnds) :
+    (opReaddirplus e s ino hd dhr lst fit tl).1.handles
+      = (sp.step (.readdirplus ino hd dhr lst fit tl) (opReaddirplus e s ino hd dhr lst fit tl).2).hnds := by
+  unfold opReaddirplus
+  have h1 := tables_getDirdata_data e s ino hd dhr
+  have hcc : ∀ x : St, (consumeCookie e x hd).handles = x.handles := by
+    intro x; unfold consumeCookie; split <;> rfl
+  have hck : ∀ (x : St) l, (cacheCookie e x hd l).handles = x.handles := by
+    intro x l; unfold cacheCookie; split <;> rfl
+  split
+  · rename_i s1 er _ heq; rw [heq] at h1
+    show s1.handles = sp.hnds
+    rw [handles_of_tables h1]; exact h
+  · rename_i s1 tmp heq; rw [heq] at h1
+    split
+    · show (closeTemp (consumeCookie e s1 hd) tmp).handles = sp.hnds
+      rw [handles_of_tables (tables_closeTemp _ _), hcc, handles_of_tables h1]; exact h
+    · rename_i l
+      have hr := rdpLoop_handles e ino tl l (cacheCookie e (consumeCookie e s1 hd) hd l) fit true []
+      split
+      rename_i s2 acc er heq2
+      rw [heq2] at hr
+      show (closeTemp s2 tmp).handles = (sp.deliverAll acc).hnds
+      rw [deliverAll_hnds, handles_of_tables (tables_closeTemp _ _)]
+      simp only at hr
+      rw [hr, hck, hcc, handles_of_tables h1]; exact h
+
+/-- **the handle table is the client's set of held handles**, request by request -/
+theorem step_hnds (e : Env) (s : St) (sp : Spec) (op : Op) (h : s.handles = sp.hnds) :
+    (step e s op).1.handles = (sp.step op (step e s op).2).hnds := by
+  cases op with
+  | lookup p pst a =>
+    simp only [step]
+    rw [entryRes_hnds sp _ _ (Or.inl ⟨p, pst, a, rfl⟩), entryRes_fst, doLookup_handles]; exact h
+  | forget i n =>
+    show (forgetOne e s i n).handles = (sp.forget i n).hnds
+    rw [forgetOne_handles, forget_hnds]; exact h
+  | batchForget l =>
+    show (batchForget e s l).handles = (sp.forgetAll l).hnds
+    rw [batchForget_handles, forgetAll_hnds]; exact h
+  | mkdir p pst hr a => exact opMknod_hnds e s sp p pst hr a _ (Or.inl rfl) h
+  | mknod p pst hr a => exact opMknod_hnds e s sp p pst hr a _ (Or.inr rfl) h
+  | link i ist p pst hr a => exact opLink_hnds e s sp i ist p pst hr a h
+  | create p pst x cr a ohr => exact opCreate_hnds e s sp p pst x cr a ohr h
+  | «open» i hr =>
+    simp only [step, opOpen]
+    split
+    · exact h
+    · unfold doOpen
+      have h1 := tables_openInode e s i hr
+      split
+      · rename_i s1 er heq; rw [heq] at h1
+        show s1.handles = sp.hnds
+        rw [handles_of_tables h1]; exact h
+      · rename_i s1 heq; rw [heq] at h1
+        show mput s1.handles s1.nextHandle i = mput sp.hnds s1.nextHandle i
+        rw [handles_of_tables h1, h]
+  | opendir i hr =>
+    simp only [step, opOpendir]
+    split
+    · exact h
+    · unfold doOpen
+      have h1 := tables_openInode e s i hr
+      split
+      · rename_i s1 er heq; rw [heq] at h1
+        show s1.handles = sp.hnds
+        rw [handles_of_tables h1]; exact h
+      · rename_i s1 heq; rw [heq] at h1
+        show mput s1.handles s1.nextHandle i = mput sp.hnds s1.nextHandle i
+        rw [handles_of_tables h1, h]
+  | release i hd =>
+    simp only [step, opRelease]
+    split
+    · exact h
+    · unfold doRelease
+      split
+      · show mdel s.handles hd = mdel sp.hnds hd
+        rw [h]
+      · exact h
+  | releasedir i hd =>
+    simp only [step, opReleasedir]
+    split
+    · exact h
+    · unfold doRelease
+      split
+      · show mdel s.handles hd = mdel sp.hnds hd
+        rw [h]
+      · exact h
+  | readdirplus i hd dhr lst fit tl => exact opReaddirplus_hnds e s sp i hd dhr lst fit tl h
+  | getattr i hd hr =>
+    have : (step e s (.getattr i hd hr)).1.tables = s.tables := by
+      simp only [step, opGetattr]
+      split
+      · rfl
+      · split
+        · split <;> rfl
+        · split
+          · rfl
+          · split
+            · rfl
+            · have h1 := tables_allocFd e s
+              split
+              · rename_i heq; rw [heq] at h1; exact h1
+              · rename_i heq; rw [heq] at h1; rw [tables_freeFd]; exact h1
+    rw [handles_of_tables this]
+    have hs : ∀ r, (sp.step (.getattr i hd hr) r).hnds = sp.hnds := by
+      intro r; cases r <;> simp [Spec.step, deliver_hnds, deliverAll_hnds]
+      all_goals sorry
+    rw [hs]; exact h
+  | rename p1 st1 p2 st2 hr => sorry
+  | unlink p pst hr => sorry
+  | destroy root =>
+    simp only [step, opDestroy]
+    show (importRoot e (clearAll s) root).1.handles = []
+    rw [importRoot_handles]
+    unfold clearAll
+    rw [handles_of_tables (dropAll_tables _ _)]
+  | init root =>
+    simp only [step, opInit]
+    have := importRoot_handles e s root
+    split
+    · rename_i heq; rw [heq] at this; exact this.trans h
+    · rename_i heq; rw [heq] at this; exact this.trans h
+
 end Fbr.PtRefs
